@@ -376,6 +376,31 @@ func F6(yield func(Program)) {
 		yield(prog("F6kind", nil, emitN(1), asStmt(Clone(bad)), emitN(2)))
 		yield(prog("F6kind", nil, FuncDecl("f", nil, emitN(1), asStmt(Clone(bad)), emitN(2)), Expr(callE("f")), emitN(3)))
 	}
+	// a call that fails while operands are pending, caught by try in the middle of an expression
+	fails := []func() *N{
+		func() *N { return Func("", nil, Return(List(Int(7), Bin("<", Int(1), Str("a"))))) },
+		func() *N { return Func("", nil, Return(Bin("+", Int(7), Index(List(Int(1)), Int(5))))) },
+		func() *N { return Func("", nil, Return(callE("g3", Int(7), Int(8), callE("error", Str("x"))))) },
+		func() *N { return Func("", nil, Var("x", Index(List(Int(8), Int(9)), Int(7))), Return(Id("x"))) },
+		func() *N { return Func("", nil, ForRange("i", Int(3), Expr(List(Id("i"), Index(List(Int(1)), Int(5))))), Return(Int(1))) },
+		func() *N {
+			return Func("", nil, Switch(Int(4), Case{Vals: []*N{Int(4)}, Body: []*N{Expr(List(Int(6), callE("error", Str("y"))))}}), Return(Int(1)))
+		},
+		func() *N { return Func("", nil, Return(Int(3))) },
+	}
+	g3 := func() *N { return FuncDecl("g3", P("a", "b", "c"), Return(List(Id("a"), Id("b"), Id("c")))) }
+	for _, fb := range fails {
+		for _, hv := range []func() *N{func() *N { return Str("E") }, func() *N { return Func("", P("e"), Return(Str("H"))) }} {
+			t := func() *N { return callE("try", fb(), hv()) }
+			yield(prog("F6pending", nil, g3(), Expr(List(Int(0), t()))))
+			yield(prog("F6pending", nil, g3(), Expr(List(Int(0), t(), t(), Int(9)))))
+			yield(prog("F6pending", nil, g3(), Expr(Bin("+", Str("p"), t()))))
+			yield(prog("F6pending", nil, g3(), Expr(callE("g3", Int(1), t(), Int(3)))))
+			yield(prog("F6pending", nil, g3(), Expr(Map(Str("k"), Int(0), Str("v"), t()))))
+			yield(prog("F6pending", []string{"r"}, g3(), Var("r", List()), ForRange("i", Int(3), Expr(Meth(Id("r"), "append", List(Id("i"), t())))), Expr(Id("r"))))
+			yield(prog("F6pending", nil, g3(), FuncDecl("w", nil, Var("a", Int(1)), Var("b", List(Id("a"), t())), Return(List(Id("a"), Id("b")))), Expr(callE("w"))))
+		}
+	}
 	// defer
 	d := func(k int64) *N { return Defer(callE("emit", Int(k))) }
 	yield(prog("F6defer", nil, FuncDecl("f", nil, d(1), d(2), d(3), emitN(0), Return(Int(5))), Expr(List(callE("f"), callE("n")))))
